@@ -698,6 +698,12 @@ def parse_threads_option(v):
     if v.startswith("["):
         # `crate::rt::ncpu()` = the available parallelism, written 0 here too (it resolves to the same count)
         return [0 if "ncpu" in x else int(x) for x in v.strip("[]").split(",") if x.strip()]
+    mm = re.match(r"(\d+)\.\.=(\d+)$", v)
+    if mm:
+        return list(range(int(mm.group(1)), int(mm.group(2)) + 1))
+    mm = re.match(r"vec!\[(.*)\]$", v)
+    if mm:
+        return [int(x) for x in mm.group(1).split(",") if x.strip()]
     if v == "true":
         return [0]
     if v == "false":
